@@ -182,7 +182,7 @@ CLAIMS = {
                  "cannot read a body any more - e.g. one rewritten to destructure self first - the generated file stays as last regenerated, the evidence says "
                  "so, and the tie for that run is the differential run alone, with streams a third of the thorough size."),
         "design_ref": "DESIGN.md §0.7b, §7 C17",
-        "note": "clone() is #[derive(Clone)] (structural, trusted). The translator recognises only ownership-only wrappers; an into_owned body that alters, swaps or drops a field in a shape it CAN read makes a theorem unprovable, in a shape it cannot read it is left to the run (which caught all four seeded into_owned changes by itself).",
+        "note": "clone() is #[derive(Clone)] (structural, trusted). The translator recognises only ownership-only wrappers; an into_owned body that alters, swaps or drops a field in a shape it CAN read makes a theorem unprovable, in a shape it cannot read it is left to the run (which caught the seeded into_owned changes by itself). The model's equality is structural; the library's was not for built playlists (StableVec compares capacity): finding K10, repaired by fix: d2b0df4 after the builder-script stream through into_owned / clone (owned_build_media) exposed it.",
     },
     "C05": {
         "technique": "Lean 4 proof that no text entry point of the model can return `panic` (every string, every builder configuration) + malformed-stream differential run gated on panicked-or-not + measured growth of running time",
